@@ -640,13 +640,16 @@ def compare_multiway(block_intersection, dataset_names, phases):
     bipartitions = list(histogram.keys())
     bipartitions.sort()
     multiway_results = {}  # (dataset_list0, dataset_list1) --> count
-    for i, s in enumerate(bipartitions):
+    printed_disagreement = False
+    for s in bipartitions:
         count = histogram[s]
-        if i == 0:
-            assert {c for c in s} == set("0")
+        # The all-agree bipartition sorts first, but it is absent when the
+        # files never all agree on a pair of adjacent variants
+        if set(s) == {"0"}:
             print("ALL AGREE")
-        elif i == 1:
+        elif not printed_disagreement:
             print("DISAGREEMENT")
+            printed_disagreement = True
         left, right = [], []
         for name, leftright in zip(dataset_names, s):
             if leftright == "0":
